@@ -36,6 +36,11 @@ type Program struct {
 	contractSource string
 	impls     map[string][]*ssa.Function // "Iface.Method" -> in-package implementations
 	ifaceIDs  map[int]types.Type
+	fieldInvs map[string]*Clause // "T.f" -> invariant over v (trusted data-structure invariant)
+	elemInvs  map[string]*Clause // "[]T" -> invariant over v
+	appendLemmas map[string][]string // element type -> lemmas instantiated at every append
+	usedLemmas map[string]bool
+	comparable map[string]bool // interface types whose dynamic types are assumed comparable
 }
 
 func loadProgram(repo string, overlayContract string, force bool) (*Program, error) {
@@ -44,7 +49,7 @@ func loadProgram(repo string, overlayContract string, force bool) (*Program, err
 	cpath := filepath.Join(repo, "pkg/ggql/verif_contracts.go")
 	p := &Program{repo: repo, contracts: map[string]*Contract{}, specs: map[string]*SpecFn{}, lemmas: map[string]*Lemma{},
 		ifaceCons: map[string]*Contract{}, pures: map[string]bool{}, funcs: map[string]*ssa.Function{},
-		tags: map[string]int{}, strLits: map[string]string{}, srcLines: map[string][]string{}, impls: map[string][]*ssa.Function{}}
+		tags: map[string]int{}, comparable: map[string]bool{}, appendLemmas: map[string][]string{}, usedLemmas: map[string]bool{}, fieldInvs: map[string]*Clause{}, elemInvs: map[string]*Clause{}, strLits: map[string]string{}, srcLines: map[string][]string{}, impls: map[string][]*ssa.Function{}}
 	p.contractSource = cpath
 	if _, err := os.Stat(cpath); err != nil || force {
 		if overlayContract == "" {
